@@ -38,5 +38,43 @@ int main(int argc, char** argv)
 		if (m.length() > 0) { int k0 = ref.begin()->first; m2[k0] = m2[k0] + 1; if (m == m2) { printf("REPRODUCED Map::operator== ignores a differing value of the smallest key\n"); return 1; } }
 		printf("OK\n"); return 0;
 	}
+	if (cmd == "battery") {            // small-scope exhaustive: every sequence of <= 5 operations over 4 keys that collide in one HashMap bucket,
+		// on Map, HashMap and Set, against std::map / std::set; plus ==, clone, add and the set operations on the resulting containers
+		const int K[4] = { 5, 261, 517, 773 };   // congruent modulo 256 (the default table size)
+		long runs = 0;
+		for (int len = 1; len <= 5; len++) {
+			int total = 1; for (int i = 0; i < len; i++) total *= 8;                  // op = (kind: 0 set / 1 remove) x key
+			for (int code = 0; code < total; code++) {
+				Map<int, int> m; HashMap<int, int> h; Set<int> st; std::map<int, int> ref;
+				int c = code;
+				for (int i = 0; i < len; i++, c /= 8) {
+					int k = K[c % 4], kind = (c / 4) % 2;
+					if (kind == 0) { m[k] = i; h[k] = i; st << k; ref[k] = i; } else { m.remove(k); h.remove(k); st.remove(k); ref.erase(k); }
+					if (m.length() != (int)ref.size() || h.length() != (int)ref.size() || st.length() != (int)ref.size()) { printf("REPRODUCED length after op %d of sequence %d/%d: Map %d HashMap %d Set %d reference %d\n", i, code, len, m.length(), h.length(), st.length(), (int)ref.size()); return 1; }
+					for (int q = 0; q < 4; q++) { bool in = ref.count(K[q]) != 0;
+						if (m.has(K[q]) != in || h.has(K[q]) != in || st.has(K[q]) != in) { printf("REPRODUCED membership of key %d after op %d of sequence %d/%d\n", K[q], i, code, len); return 1; }
+						if (in && (m[K[q]] != ref[K[q]] || h[K[q]] != ref[K[q]] || *h.find(K[q]) != ref[K[q]])) { printf("REPRODUCED value of key %d after op %d of sequence %d/%d\n", K[q], i, code, len); return 1; } }
+				}
+				int n = 0, last = -1; foreach2(int k, int v, m) { if (k <= last || ref[k] != v) { printf("REPRODUCED Map enumeration (order/value) in sequence %d/%d\n", code, len); return 1; } last = k; n++; }
+				if (n != (int)ref.size()) { printf("REPRODUCED Map enumeration count\n"); return 1; }
+				n = 0; foreach2(int k, int v, h) { if (!ref.count(k) || ref[k] != v) { printf("REPRODUCED HashMap enumeration in sequence %d/%d\n", code, len); return 1; } n++; }
+				if (n != (int)ref.size()) { printf("REPRODUCED HashMap enumeration visits %d entries, map has %d (sequence %d/%d)\n", n, (int)ref.size(), code, len); return 1; }
+				// equality against a copy built in ascending order in a table of another size; add() into an empty and a non-empty map
+				HashMap<int, int> h2(1024); Set<int> st2; Map<int, int> m2, m3, m4; m4[9] = 9;
+				for (auto& e : ref) { h2[e.first] = e.second; st2 << e.first; m2[e.first] = e.second; }
+				if (!(h == h2) || !(h2 == h) || !(st == st2) || !(m == m2)) { printf("REPRODUCED operator== on equal contents (sequence %d/%d)\n", code, len); return 1; }
+				m3.add(m); m4.add(m);
+				if (!(m3 == m) || m4.length() != m.length() + 1) { printf("REPRODUCED Map::add result\n"); return 1; }
+				m3[1000] = 1; m4[1001] = 1;
+				if (m.has(1000) || m.has(1001) || m.length() != (int)ref.size()) { printf("REPRODUCED Map::add: a later change of the destination shows in the source map\n"); return 1; }
+				if (ref.size()) { int k0 = ref.begin()->first; h2[k0]++; m2[k0]++; if (h == h2 || m == m2) { printf("REPRODUCED operator== ignores a differing value\n"); return 1; } }
+				runs++;
+			}
+		}
+		// table growth: keys crossing the rehash threshold, every one still found
+		{ HashMap<int, int> g(16); for (int i = 0; i < 2000; i++) g[i * 16] = i; if (g.length() != 2000) { printf("REPRODUCED length after growth\n"); return 1; }
+		  for (int i = 0; i < 2000; i++) if (!g.has(i * 16) || g[i * 16] != i) { printf("REPRODUCED key %d lost in rehash\n", i * 16); return 1; } }
+		printf("OK %ld sequences\n", runs); return 0;
+	}
 	return 2;
 }
